@@ -279,6 +279,8 @@ def run_case(case):
             names[1] = "sp ace.txt"
         if case["nfiles"] >= 4:
             names[3] = "ünï.dat"
+        if case["nfiles"] >= 3:
+            names[2] = rng.choice([".nomedia", "..data", ".config", "f2.bin", "-n", "~x"])   # entries whose names start with a dot are files like any other
         contents = {}
         for k, nm in enumerate(names):
             contents[nm] = scen.blob(case["seed"] + nm, rng.choice([0, 1, 100, 5000, 12345]))
